@@ -204,7 +204,7 @@ impl Cx {
 }
 
 fn obs(res: &str, bytes: &[u8], offered: &str, c: &str, fd: &[Vec<u8>]) -> String {
-    format!("{}/b={}/o={}/c={}/fd={}", res, show_bytes(bytes), offered, c, fd.iter().map(|r| show_bytes(r)).collect::<Vec<_>>().join("|"))
+    format!("{}/b={}/o={}/c={}/fd={}:{}", res, show_bytes(bytes), offered, c, fd.len(), fd.iter().map(|r| show_bytes(r)).collect::<Vec<_>>().join("|"))
 }
 
 fn read_obj_n<S: BitmapSlice>(r: &mut Reader<'_, S>, n: usize) -> Option<std::io::Result<Vec<u8>>> {
@@ -686,7 +686,11 @@ fn fwriter_op<'a>(ws: &mut Vec<Writer<'a, ()>>, op: &OpS, cx: &mut Cx) -> String
     if panicked != expect_panic && !(k == "fa" && !t.buffered) {
         cx.hit("C04", format!("C04:panic:{}", k), format!("panicked={} but the one-shot rule predicts {}", panicked, expect_panic));
     }
-    if let Some(wfd) = want_fd {
+    if let Some(mut wfd) = want_fd {
+        // a zero-length writev on the descriptor queues nothing (a zero-length write does)
+        if k == "fv" {
+            wfd.retain(|r| !r.is_empty());
+        }
         if !panicked && fd != wfd && !(res.starts_with("err") && fd.is_empty()) {
             cx.hit("C04", format!("C04:fd-record:{}", k), format!("descriptor saw {:?} expected {:?}", fd.iter().map(|r| show_bytes(r)).collect::<Vec<_>>(), wfd.iter().map(|r| show_bytes(r)).collect::<Vec<_>>()));
         }
